@@ -5,10 +5,13 @@ namespace vf {
 struct PZ { i64 x, y, z; };
 using PathZ = std::vector<PZ>; using PathsZ = std::vector<PathZ>;
 struct ZLog { i64 x, y, z; };               // a point handed to the Z callback and the label the callback assigned
+// per-vertex width used by both builds in the delta-callback runs: mode 1 negative at the first vertex, 2 negative at the last, 3 alternating taper
+inline double offset_cb_width(double delta, int mode, size_t curr, size_t n) { if (mode == 1) return curr == 0 ? -delta : delta; if (mode == 2) return curr + 1 == n ? -delta : delta; return delta * (double)(1 + curr % 2) / 2.0; }
 struct ZOut { bool ok = true; PathsZ closed, open; std::vector<ZLog> log; };
 // cb: 0 = no callback, 1 = callback that assigns fresh negative labels (-1, -2, ...) and logs the point
 ZOut z_boolop(int ct, int fr, const PathsZ& S, const PathsZ& C, const PathsZ& O, bool pc, bool rs, int cb, bool tree);
 ZOut z_offset(const PathsZ& in, double delta, int jt, int et, double ml, double arc, bool rs, int cb);
+ZOut z_offset_cb(const PathsZ& in, double delta, int jt, int et, double ml, double arc, int mode);   // Execute(DeltaCallback64): per-vertex widths, see offset_cb_width
 ZOut z_rectclip(i64 l, i64 t, i64 r, i64 b, const PathsZ& in, bool lines);
 ZOut z_boolopD(int ct, int fr, const PathsZ& S, const PathsZ& C, int precision, int cb);   // ClipperD, coordinates /4
 // ClipperD history: Execute with a callback installed, SetZCallback(nullptr), Execute again; returns the SECOND result (log = callback calls of the
